@@ -18,7 +18,7 @@ from .. import multi
 
 ID = "C10"
 LEVEL = "exploration"
-RULE = ("random for_all queries: universal variable of kind P or Q (|U| 1-4), the attribute expression q.p of it, or a restricted entity an(entity(u, restriction)) with the condition written over the variable or over the entity, "
+RULE = ("random for_all queries: universal variable of kind P or Q (|U| 1-4), the attribute expression q.p of it, a sub-query correlated with a free variable (an(entity(q, q.p == x))), or a restricted entity an(entity(u, restriction)) with the condition written over the variable or over the entity, "
         "1-3 free variables, condition trees of depth 0-3 over the full vocabulary (leaves, negations, conjunctions, "
         "disjunctions) mentioning the universal only / the free variables only / both, optionally and_-combined with a "
         "condition on the free variables in either order; all free variables selected, or (a third of the cases with >= 2 free variables) only part of them; caching on and off. "
@@ -40,10 +40,28 @@ def floors(tier):
     return {"distinct_nontrivial": 200, "re:ForAll(@.*)?\\.enter": 1000, "cls:U>=2": 1000, "cls:cond:compound": 500,
             "cls:cond:or": 200, "cls:cond:and": 200, "cls:cond:not": 100, "cls:mentions:both": 300,
             "cls:mentions:universal_only": 30, "cls:mentions:free_only": 30, "cls:extra:first": 100,
-            "cls:extra:second": 100, "cls:u_expr": 100, "cls:u_restricted_entity": 300, "cls:free_variable_not_selected": 300, "cls:u_scalar_attribute_with_zero": 200, "cls:caching_off": 200, "cls:nfree=2": 200, "cls:nfree=3": 50}
+            "cls:extra:second": 100, "cls:u_expr": 100, "cls:u_restricted_entity": 300, "cls:free_variable_not_selected": 300, "cls:u_scalar_attribute_with_zero": 200, "cls:u_correlated_subquery": 300, "cls:caching_off": 200, "cls:nfree=2": 200, "cls:nfree=3": 50}
+
+
+def gen_corr_case(rng):
+    """the universal is a sub-query CORRELATED with a free variable: for_all(an(entity(q, q.p == x)), q.attr OP z.attr2)"""
+    world = D.random_world(rng, np_=(2, 4), nq=(2, 5))
+    for i in range(len(world["P"])):        # premise: a non-empty universal domain for every x
+        if not any(q["p"] == i for q in world["Q"]):
+            world["Q"].append({"a": rng.randint(1, 3), "b": rng.randint(1, 3), "p": i})
+    zk = rng.choice("PQ")
+    # The correlating variable x is bound by an EARLIER conjunct (and_(x.a >= k, for_all(...))), so the universal domain is a
+    # fixed non-empty set per binding, as the statement presumes.  With x still unbound when the for_all is reached (for_all
+    # first, or alone) the implementation takes all (q, x) pairs as the universal domain; DESIGN 9.5, observed, not judged.
+    return {"world": world, "kinds": ["Q", "P", zk], "cond": None, "extra": None, "extra_first": True,
+            "u_expr": False, "caching": rng.random() < 0.7,
+            "corr": {"attr": rng.choice("ab"), "op": rng.choice([">=", "<=", "!=", ">"]), "zattr": rng.choice("ab"),
+                     "xk": rng.choice([0, 1, 2]), "on_entity": rng.random() < 0.5}}
 
 
 def gen_case(rng):
+    if rng.random() < 0.1:
+        return gen_corr_case(rng)
     nfree = rng.choice([1, 1, 2, 2, 3])
     kinds = [rng.choice("PQ") for _ in range(1 + nfree)]
     world = D.random_world(rng, np_=(1, 4), nq=(1, 4))
@@ -101,6 +119,12 @@ def cases(spec, ctx):
 
 def expected(case, world):
     m = H.labels_of(world)
+    if case.get("corr"):
+        k = case["corr"]
+        op = C.OPS[k["op"]]
+        return [(m[id(x)], m[id(z)]) for x in world["P"] for z in world[case["kinds"][2]]
+                if (k["xk"] is None or x.a >= k["xk"])
+                and all(op(getattr(q, k["attr"]), getattr(z, k["zattr"])) for q in world["Q"] if q.p is x)]
     doms = H.domains(world, case["kinds"])
     U = doms[0]
     if case.get("u_restr"):
@@ -124,6 +148,22 @@ def run(case, world, caching, times=1, perm=None):
     doms = H.domains(world, case["kinds"], perm)
     (enable_caching if caching else disable_caching)()
     try:
+        if case.get("corr"):
+            from entity_query_language import entity
+            k = case["corr"]
+            op = C.OPS[k["op"]]
+            with symbolic_mode():
+                xs = H.declare(case["kinds"], doms)
+                qv, x, z = xs
+                members = an(entity(qv, qv.p == x))
+                fa = for_all(members, op(getattr(members if k["on_entity"] else qv, k["attr"]), getattr(z, k["zattr"])))
+                if k["xk"] is None:
+                    cond = fa
+                else:
+                    cond = and_(x.a >= k["xk"], fa) if case["extra_first"] else and_(fa, x.a >= k["xk"])
+                sel = [x, z]
+                q = an(set_of(sel, cond))
+            return [[tuple(H.lab(m, r[v]) for v in sel) for r in q.evaluate()] for _ in range(times)]
         with symbolic_mode():
             xs = H.declare(case["kinds"], doms)
             u = xs[0].p if case.get("u_expr") else xs[0]
@@ -161,7 +201,29 @@ def run_for_c05(case, caching, times):
     return run(case, world, caching, times), expected(case, world), not case.get("sel_free")
 
 
+def check_corr_case(case, ctx):
+    world = D.build_world(case["world"])
+    exp = expected(case, world)
+    ctx.cls("cls:u_correlated_subquery")
+    ctx.cls("cls:caching_on" if case["caching"] else "cls:caching_off")
+    sizes = [len([q for q in world["Q"] if q.p is x]) for x in world["P"]]
+    if max(sizes) >= 2 and 0 < len(exp) < len(world["P"]) * len(world[case["kinds"][2]]):
+        ctx.nontrivial()
+    try:
+        got = run(case, world, case["caching"])[0]
+    except Exception as e:
+        ctx.fail("EXC", f"{type(e).__name__}: {e}")
+        return
+    k = H.diff_kind(got, exp, ordered=False, multiset=True)
+    if k:
+        ctx.fail(k, {"missing": sorted(set(exp) - set(got))[:8], "extra": sorted(set(got) - set(exp))[:8],
+                     "n_expected": len(exp), "n_observed": len(got), "universal_domain_sizes": sizes})
+    ctx.sample({"correlated": case["corr"], "expected": exp[:5], "observed": got[:5]})
+
+
 def check_case(case, ctx):
+    if case.get("corr"):
+        return check_corr_case(case, ctx)
     world = D.build_world(case["world"])
     exp = expected(case, world)
     nU = len(world[case["kinds"][0]])
